@@ -109,6 +109,29 @@ def install_hooks(ctx):
   graph.unflatten = unflatten
 
 
+def poison_metadata(x):
+  """Mutate in place the metadata of every Variable / VariableState reachable from a product (State, graph): anything the
+  API returned must share no mutable metadata with the graph it came from (and vice versa)."""
+  from flax import nnx
+  from flax.nnx import statelib
+  from vf.gen import nnx_graph as G
+  n = 0
+  if isinstance(x, (nnx.State, dict)):
+    for _, leaf in statelib.to_flat_state(x if isinstance(x, nnx.State) else nnx.State(x)):
+      if isinstance(leaf, nnx.VariableState):
+        leaf.vf_poison = 'POISON'
+        n += 1
+  elif isinstance(x, nnx.VariableState) or G._is_var(x):
+    x.vf_poison = 'POISON'
+    n += 1
+  else:
+    for _, v in G.ref_leaves(x):
+      if G._is_var(v):
+        v.vf_poison = 'POISON'
+        n += 1
+  return n
+
+
 def leaf_eq(a, b):
   """VariableState / raw leaf equality (type, metadata, value bytes)."""
   if hasattr(a, 'type') and hasattr(b, 'type'):
@@ -163,6 +186,15 @@ def run_graph(ctx, spec, rng, n_ops):
   ctx.op('merge')
   ctx.check(G.canon(m) == c0, 'roundtrip:not_isomorphic', lambda: dict(spec=G.spec_summary(spec)))
   untouched('merge')
+  # metadata aliasing: editing the metadata of what split / state returned must not reach g, and editing the merged graph must
+  # not reach the state it was merged from
+  ctx.event('metadata_poisoned', poison_metadata(m))
+  s_after = nnx.State(jax.tree.map(lambda x: x, s)) if False else s
+  ctx.check(all('vf_poison' not in leaf.get_metadata() for _, leaf in statelib.to_flat_state(s) if isinstance(leaf, nnx.VariableState)),
+            'aliasing:merged_graph_shares_metadata_with_state', None)
+  ctx.event('metadata_poisoned', poison_metadata(s))
+  ctx.event('metadata_poisoned', poison_metadata(st))
+  untouched('metadata of split/state results edited')
   # the rebuilt graph shares no Module / Variable with the original
   shared = set(G.identities(m).values()) & set(ids0.values())
   ctx.check(not shared, 'roundtrip:shares_objects_with_original', None)
@@ -249,6 +281,7 @@ def run_graph(ctx, spec, rng, n_ops):
       for _, v in G.ref_leaves(c):
         if G._is_var(v):
           v.value = v.value + 1
+          v.vf_poison = 'POISON'
       ctx.check(G.canon(g) == G.canon(sh.root), 'clone:mutation_leaked_to_original', None)
     elif op in ('update', 'partial_update', 'update_from_merge'):
       st = nnx.state(g)
@@ -281,6 +314,15 @@ def run_graph(ctx, spec, rng, n_ops):
           setattr(holder, key, v + 100)
       ctx.check(G.canon(g) == G.canon(sh.root), 'update:wrong_result', lambda: dict(op=op, spec=G.spec_summary(spec)))
       ctx.check(G.identities(g) == ids_before, 'update:identity_changed', None)
+      # the state used for the update stays independent of the graph: editing its metadata afterwards must not reach g
+      poison_metadata(new)
+      ctx.check(G.canon(g) == G.canon(sh.root), 'aliasing:update_shares_metadata_with_state', lambda: dict(op=op))
+      # ... and editing g's metadata must not reach the state
+      for _, v in G.ref_leaves(g):
+        if G._is_var(v):
+          v.vf_poison2 = 'POISON2'
+      ctx.check(all('vf_poison2' not in leaf.get_metadata() for _, leaf in statelib.to_flat_state(new) if isinstance(leaf, nnx.VariableState)),
+                'aliasing:update_shares_metadata_with_state', lambda: dict(op=op, direction='graph->state'))
     elif op == 'pop':
       cands = [f for f in FILTER_MENU if path_independent(f)]
       fds2 = [rng.choice(cands) for _ in range(rng.randint(1, 2))]
